@@ -29,8 +29,12 @@ def tmin(k):
     return T0 + datetime.timedelta(minutes=k)
 
 
+_HP = decimal.Context(prec=80)
+
+
 def q(x, p, r=decimal.ROUND_HALF_EVEN):
-    return D(x).quantize(D(1).scaleb(-p), rounding=r)
+    # the harness's own arithmetic must never be the thing that overflows the 28-digit default context
+    return D(x).quantize(D(1).scaleb(-p), rounding=r, context=_HP)
 
 
 def unit(p):
@@ -64,16 +68,27 @@ class Ctx:
 def _execute(ctx):
     scn = ctx.scn
     prec = scn["prec"]
-    qp = prec[QUOTE]
     bases = scn["bases"]
-    npairs = len(bases)
+    inv = scn.get("inv")
+    # pairs: every base against QUOTE, optionally one inverse pair QUOTE/<inv quote> (a symbol that reaches the margin
+    # quote symbol only through 1/price)
+    pair_syms = [(b, QUOTE) for b in bases] + ([(QUOTE, inv["quote"])] if inv else [])
+    npairs = len(pair_syms)
+    pb = [x[0] for x in pair_syms]
+    pq = [x[1] for x in pair_syms]
+    symbols = [QUOTE] + bases + ([inv["quote"]] if inv else [])
     fee = scn["fee"]
     pct = D(fee["pct"])
     minfee = D(fee["min"])
     liq = scn["liq"]
     lend = scn["lend"]
     init = {k: D(v) for k, v in scn["init"].items()}
-    uq = unit(qp)
+
+    def qpp(pi):
+        return prec[pq[pi]]
+
+    def uqp(pi):
+        return unit(prec[pq[pi]])
 
     async def main(loop):
         import basana as bs
@@ -82,7 +97,7 @@ def _execute(ctx):
         from basana.core.event_sources import trading_signal as ts
         BUY, SELL = bs.OrderOperation.BUY, bs.OrderOperation.SELL
         d = bs.backtesting_dispatcher(max_concurrent=ctx.maxc)
-        pairs = [bs.Pair(b, QUOTE) for b in bases]
+        pairs = [bs.Pair(b_, q_) for b_, q_ in pair_syms]
         fee_s = fees.NoFee() if fee["kind"] == "none" else fees.Percentage(pct, minfee)
         if liq["kind"] == "inf":
             liq_f = liquidity.InfiniteLiquidity
@@ -119,7 +134,7 @@ def _execute(ctx):
                     # a default that charges interest in the borrowed symbol needs one object per symbol
                     default_cond = None
                     ls = Lender(QUOTE, default_conditions=None)
-                    for sym in [QUOTE] + bases:
+                    for sym in symbols:
                         conds[sym] = mk_cond(dc, sym)
                 else:
                     default_cond = mk_cond(dc, QUOTE)
@@ -150,7 +165,7 @@ def _execute(ctx):
         for pi, rows in enumerate(scn["bars"]):
             evs = []
             for bi, r in enumerate(rows):
-                o, h, l, c = [max(q(D(x) / 100, qp), uq) for x in (r["o"], r["h"], r["l"], r["c"])]
+                o, h, l, c = [max(q(D(x) / 100, qpp(pi)), uqp(pi)) for x in (r["o"], r["h"], r["l"], r["c"])]
                 h = max(o, h, l, c)
                 l = min(o, h, l, c)
                 b = bar.Bar(tmin(r["k"]), pairs[pi], o, h, l, c, D(r["v"]))
@@ -176,35 +191,36 @@ def _execute(ctx):
                 return stp
             return M["last_close"].get(pi)
 
-        def fee_of(quote_amt):
+        def fee_of(quote_amt, pi):
             if fee["kind"] == "none":
                 return D(0)
-            return q(max(abs(quote_amt) * pct / 100, minfee), qp, decimal.ROUND_UP)
+            return q(max(abs(quote_amt) * pct / 100, minfee), qpp(pi), decimal.ROUND_UP)
 
         def R_of(kind, side, pi, amt, lim, stp):
-            b = bases[pi]
+            b = pb[pi]
+            qs = pq[pi]
             sign = 1 if side == "buy" else -1
             upd = {b: amt * sign}
             est = est_price(kind, lim, stp, pi)
             if est:
-                upd[QUOTE] = q(amt * est, qp) * -sign
+                upd[qs] = q(amt * est, qpp(pi)) * -sign
             upd = {k: v for k, v in upd.items() if v}
             if len(upd) == 2 and fee["kind"] != "none":
-                f = fee_of(upd[QUOTE])
-                upd[QUOTE] = upd.get(QUOTE, D(0)) - f
+                f = fee_of(upd[qs], pi)
+                upd[qs] = upd.get(qs, D(0)) - f
             return {k: -v for k, v in upd.items() if v < 0}
 
         def conv(amount, frm, to):
             """exact conversion at last closes, None without a price"""
             if frm == to or amount == 0:
                 return F(amount)
-            for pi, b in enumerate(bases):
+            for pi in range(npairs):
                 lc = M["last_close"].get(pi)
                 if lc is None:
                     continue
-                if b == frm and to == QUOTE:
+                if pb[pi] == frm and pq[pi] == to:
                     return F(amount) * F(lc)
-                if b == to and frm == QUOTE:
+                if pb[pi] == to and pq[pi] == frm:
                     return F(amount) / F(lc)
             return None
 
@@ -266,9 +282,10 @@ def _execute(ctx):
                     M["unknown_ids"] += 1
                     continue
                 sign = 1 if oi.operation == BUY else -1
-                b_ = bases[o["pi"]]
+                b_ = pb[o["pi"]]
+                qs_ = pq[o["pi"]]
                 exp[b_] = exp.get(b_, D(0)) + sign * oi.amount_filled
-                exp[QUOTE] = exp.get(QUOTE, D(0)) - sign * oi.quote_amount_filled
+                exp[qs_] = exp.get(qs_, D(0)) - sign * oi.quote_amount_filled
                 for s, f in oi.fees.items():
                     exp[s] = exp.get(s, D(0)) - f
                 # ---- C09
@@ -279,11 +296,11 @@ def _execute(ctx):
                     if oi.fees:
                         V("C09", "fee-without-trade", f"order that never traded paid {oi.fees}")
                 else:
-                    expf = fee_of(oi.quote_amount_filled)
-                    want = {QUOTE: expf} if expf else {}
+                    expf = fee_of(oi.quote_amount_filled, o["pi"])
+                    want = {qs_: expf} if expf else {}
                     if dict(oi.fees) != want:
                         V("C09", "fee-amount", f"order fees {dict(oi.fees)} != {want} for quote filled "
-                                               f"{oi.quote_amount_filled} (pct={pct}, min={minfee}, precision={qp}, "
+                                               f"{oi.quote_amount_filled} (pct={pct}, min={minfee}, precision={qpp(o['pi'])}, "
                                                f"fills={o['nfills']})")
                     if any(v < 0 for v in oi.fees.values()):
                         V("C09", "negative-fee", f"{oi.fees}")
@@ -335,22 +352,22 @@ def _execute(ctx):
                 kind = o["kind"]
                 if kind in ("market", "stop") and 0 < oi.amount_filled < oi.amount:
                     V("C05", "partial-market-stop", f"{kind} order filled {oi.amount_filled} of {oi.amount}")
-                f = oi.fees.get(QUOTE, D(0))
-                pf, pq, pfee = o["prev"]
-                if (oi.amount_filled, oi.quote_amount_filled, f) != (pf, pq, pfee):
+                f = oi.fees.get(pq[o["pi"]], D(0))
+                pf, pqf, pfee = o["prev"]
+                if (oi.amount_filled, oi.quote_amount_filled, f) != (pf, pqf, pfee):
                     fb = oi.amount_filled - pf
-                    fq = oi.quote_amount_filled - pq
+                    fq = oi.quote_amount_filled - pqf
                     ff = f - pfee
                     dbase = fb * sign
                     dquote = -fq * sign - ff
-                    for s, v in ((bases[o["pi"]], dbase), (QUOTE, dquote)):
+                    for s, v in ((pb[o["pi"]], dbase), (pq[o["pi"]], dquote)):
                         if v < 0:
                             o["spent"][s] = o["spent"].get(s, D(0)) + (-v)
                     o["prev"] = (oi.amount_filled, oi.quote_amount_filled, f)
                     o["nfills"] += 1
                     ctx.stats["fills"] += 1
                     fills_this_obs.append((o, oi, fb, fq, ff))
-                    if fee["kind"] != "none" and o["nfills"] >= 2 and fq * pct / 100 != q(fq * pct / 100, qp):
+                    if fee["kind"] != "none" and o["nfills"] >= 2 and fq * pct / 100 != q(fq * pct / 100, qpp(o["pi"])):
                         ctx.probes["multi_fill_fee_remainder"] += 1
                 # closure causes
                 if not oi.is_open and o["closed_at_obs"] is None:
@@ -417,9 +434,11 @@ def _execute(ctx):
             kind, side = o["kind"], o["side"]
             buy = side == "buy"
             lim, stp = o["lim"], o["stp"]
-            bp = prec[bases[o["pi"]]]
+            bp = prec[pb[o["pi"]]]
+            qp = qpp(o["pi"])
+            uq = uqp(o["pi"])
             if o["pi"] != pi_bar:
-                V("C04", "fill-wrong-pair", f"order of {bases[o['pi']]} filled while a bar of {bases[pi_bar]} was processed")
+                V("C04", "fill-wrong-pair", f"order of pair #{o['pi']} filled while a bar of pair #{pi_bar} was processed")
                 return
             acc = o["acc"]
             if acc is not None and o["from_handler"] and when <= acc:
@@ -484,6 +503,8 @@ def _execute(ctx):
             if not cands:
                 return
             inf = liq["kind"] == "inf"
+            uq = uqp(pi_bar)
+            qs = pq[pi_bar]
             total = None if inf else br.volume * D(liq["limit"]) / 100
             impact = D(0) if inf else D(liq["impact"]) / 100
             prevb = M.get("bal_before_bar") or {}
@@ -494,7 +515,7 @@ def _execute(ctx):
             dust = set()
             for o in cands:
                 pend = o["amt"] - o["filled_before_bar"]
-                own = max(D(0), o["R"].get(QUOTE, D(0)) - o["spent_before_bar"].get(QUOTE, D(0)))
+                own = max(D(0), o["R"].get(qs, D(0)) - o["spent_before_bar"].get(qs, D(0)))
                 if o["side"] == "buy":
                     cost = pend * br.high * (1 + impact)
                     ubq = cost + max(cost * pct / 100, minfee) + 2 * uq if fee["kind"] != "none" else cost + 2 * uq
@@ -504,7 +525,7 @@ def _execute(ctx):
                 # an order whose traded quote amount would round to nothing cannot trade at all
                 if pend * br.low * (1 - impact) < uq:
                     dust.add(o["id"])
-            free_q = prevb[QUOTE].available if QUOTE in prevb else D(0)
+            free_q = prevb[qs].available if qs in prevb else D(0)
             ample = (not borrowed_any) and free_q >= need
             rem = total
             if len(cands) >= 2 and not inf:
@@ -632,15 +653,16 @@ def _execute(ctx):
             # ranks around the last close: factors 0.90 .. 1.10, plus a few grid units
             def px(rank, fine):
                 f = D(90 + rank * 5 // 2) / 100 if rank < 8 else D(1)
-                v = q(base_px * f, qp) + (fine % 5 - 2) * uq
-                return v if v > 0 else uq
+                v = q(base_px * f, qpp(pi)) + (fine % 5 - 2) * uqp(pi)
+                return v if v > 0 else uqp(pi)
             return px(op["lim"], op["fine"]), px(op["stp"], op["fine"] // 5)
 
         async def do_order(op, pi_ctx, from_handler, edge=False, invalid=False, t_ev=None):
             pi = pi_ctx if (op["same_pair"] and pi_ctx is not None) else op["pair"] % npairs
             p = pairs[pi]
-            b = bases[pi]
+            b = pb[pi]
             bp = prec[b]
+            qp = qpp(pi)
             kind, side = op["otype"], op["side"]
             lim, stp = resolve_prices(op, pi)
             bal = await e.get_balances()
@@ -650,7 +672,7 @@ def _execute(ctx):
             if side == "sell":
                 have = av(bal, b)
             else:
-                have = av(bal, QUOTE) / ref
+                have = av(bal, pq[pi]) / ref
             if ak == "small":
                 amt = q(D(1 + op["amt"] % 300) / 100, bp, decimal.ROUND_DOWN)
             elif ak == "frac":
@@ -659,8 +681,14 @@ def _execute(ctx):
                 amt = q(have * 3 + D(op["amt"]), bp, decimal.ROUND_DOWN)
             else:
                 amt = q(have, bp, decimal.ROUND_DOWN)
+            if ak == "abs":
+                amt = D(op["abs"])
+                if op.get("abs_lim"):
+                    lim = D(op["abs_lim"])
             if amt <= 0:
                 amt = unit(bp)
+            if amt > D(10) ** 9:
+                amt = D(10) ** 9          # keep every product within the 28-digit context basana computes in
             if edge:
                 # largest amount whose reservation the model says is covered, +delta units
                 lo_, hi_ = D(0), q(have * 2 + 10, bp, decimal.ROUND_DOWN)
@@ -800,7 +828,7 @@ def _execute(ctx):
             if eq < used:
                 V("C10", "margin-requirement", f"{name} granted: equity {float(eq)} < requirement {float(used)} "
                                                f"(balances { {s: (str(b_.available + b_.hold), str(b_.borrowed)) for s, b_ in bal.items()} }, "
-                                               f"closes { {bases[k]: str(v) for k, v in M['last_close'].items()} })",
+                                               f"closes { {str(pairs[k]): str(v) for k, v in M['last_close'].items()} })",
                   shape="zero-equity" if eq == 0 else "equity-below-requirement")
             if pre_debt:
                 ctx.probes["loan_granted_with_existing_debt"] += 1
@@ -848,7 +876,7 @@ def _execute(ctx):
                 await observe("after cancel")
 
         def mark_autorepay(o):
-            sym = bases[o["pi"]] if o["side"] == "buy" else QUOTE
+            sym = pb[o["pi"]] if o["side"] == "buy" else pq[o["pi"]]
             for meta in M["loans"].values():
                 if meta["sym"] == sym and not meta["closed"]:
                     meta["explained"] = True      # may be closed by this auto-repay order
@@ -858,7 +886,7 @@ def _execute(ctx):
             M["lf"] = None
             if light or not lend:
                 return
-            sym = bases[o["pi"]] if o["side"] == "buy" else QUOTE
+            sym = pb[o["pi"]] if o["side"] == "buy" else pq[o["pi"]]
             try:
                 ol = [l for l in await e.get_loans(is_open=True) if l.borrowed_symbol == sym]
             except errors.NoPrice:
@@ -926,19 +954,40 @@ def _execute(ctx):
                 # ties in principal may be taken in either order: accept any maximal greedy outcome over tie permutations
                 amts = [a for _, a, _ in cand]
                 if len(set(amts)) == len(amts):
-                    V("C11", "largest-first", f"auto-repay order closed by cancel: loans (principal, repaid) "
-                                              f"{[(str(a), l in got) for l, a, _ in cand]}, greedy largest-first with the released "
-                                              f"funds {lf['avail']} repays {[(str(a), l in expect) for l, a, _ in cand]}")
+                    # why was an affordable loan left open? ask the exchange itself, in the very same state
+                    shape = "largest-first"
+                    why = ""
+                    for lid in [l for l, _, _ in cand if l in expect and l not in got][:1]:
+                        try:
+                            await e.repay_loan(lid)
+                            M["loans"].get(lid, {})["explained"] = True
+                            shape = "affordable-loan-skipped"
+                            why = "; repaying it right afterwards, in the same state, succeeds"
+                        except errors.NotEnoughBalance as x:
+                            if "Margin level too low" in str(x):
+                                shape = "margin-veto-of-affordable-repayment"
+                                why = f"; repaying it right afterwards is vetoed by the margin rule ({x})"
+                            else:
+                                shape = None          # the funds really are short now: the model's bookkeeping is not exact here
+                        except errors.Error:
+                            shape = None
+                    if shape:
+                        V("C11", "largest-first", f"auto-repay order closed by cancel: loans (principal, repaid) "
+                                                  f"{[(str(a), l in got) for l, a, _ in cand]}, greedy largest-first with the released "
+                                                  f"funds {lf['avail']} repays {[(str(a), l in expect) for l, a, _ in cand]}" + why,
+                          shape=shape)
             else:
                 ctx.probes["largest_first_checked"] += 1
 
         async def do_loan(op):
-            syms = [QUOTE] + bases
-            s = syms[op["sym"] % len(syms)]
+            syms = symbols
+            s = op["symname"] if op.get("symname") in symbols else syms[op["sym"] % len(syms)]
             p_ = prec[s]
             ak = op["amt_kind"]
             bal = await e.get_balances()
-            if ak == "small":
+            if ak == "abs":
+                amt = D(op["abs"])
+            elif ak == "small":
                 amt = q(D(1 + op["amt"] % 200), p_) * unit(min(p_, 1))
             elif ak == "mid":
                 amt = q(D(op["amt"] + 1) * 20, p_)
@@ -1103,7 +1152,7 @@ def _execute(ctx):
             # auto-repay orders that traded in this bar may have closed loans
             M["last_close"][pi] = ev.bar.close
             if not light:
-                await guarded(observe(f"bar {bases[pi]} {ev.when.time()}", bar_ev=ev))
+                await guarded(observe(f"bar {pairs[pi]} {ev.when.time()}", bar_ev=ev))
                 for i in M["seq"]:
                     M["orders"][i]["open_before_bar"] = False
 
@@ -1342,8 +1391,22 @@ def simplifications(scn):
         yield mod(lambda c: [c["scripts"].pop(k) for k in half])
         half2 = keys[:len(keys) // 2]
         yield mod(lambda c: [c["scripts"].pop(k) for k in half2])
+    if scn.get("inv"):
+        def drop_inv(c):
+            c["inv"] = None
+            c["bars"].pop()
+            c["prec"].pop("ZZZ", None)
+            c["init"].pop("ZZZ", None)
+            if c["lend"]:
+                c["lend"]["per_symbol"].pop("ZZZ", None)
+                for cd in list(c["lend"]["per_symbol"].values()) + ([c["lend"]["default"]] if c["lend"]["default"] else []):
+                    if cd["interest_symbol"] == "ZZZ":
+                        cd["interest_symbol"] = "USD"
+            for k in [k for k in c["scripts"] if int(k.split(":")[1]) >= len(c["bases"])]:
+                c["scripts"].pop(k)
+        yield mod(drop_inv)
     n = len(scn["bases"])
-    if n > 1:
+    if n > 1 and not scn.get("inv"):
         def drop_pair(c):
             b = c["bases"].pop()
             c["bars"].pop()
